@@ -75,7 +75,10 @@ func buildCases() ([]scen.Case, map[string]info) {
 			opq := scen.Method{Name: "OpQ" + id, Verb: "GET", Route: scen.S("/q"), Security: m.Secs, Params: []scen.Param{{Name: "n", Type: "int", In: "Query"}}, Ret: "string"}
 			opb := scen.Method{Name: "OpB" + id, Verb: "POST", Route: scen.S("/b"), Security: m.Secs, Params: []scen.Param{{Name: "b", Type: "Body" + id, In: "Body"}}}
 			inh := scen.Method{Name: "Inh" + id, Verb: "GET", Route: scen.S("/inherit"), Hidden: true}
-			ctl.Methods = []scen.Method{opq, opb, inh}
+			// a method whose name (hence operationId) is the same in every controller of the project, with this controller's
+			// own security: nothing keyed by the bare method name may leak one controller's security into another's
+			lst := scen.Method{Name: "List", Verb: "GET", Route: scen.S("/list"), Security: m.Secs, Ret: "string"}
+			ctl.Methods = []scen.Method{opq, opb, inh, lst}
 			decl := "type Body" + id + " struct {\n\tA string `json:\"a\" validate:\"required\"`\n}\n"
 			cases = append(cases, scen.Case{ID: id, Unit: scen.Unit{Controllers: []scen.Controller{ctl}, Decls: map[string]string{id: decl}},
 				Features: map[string]string{"method": m.Name, "controller": c.Name}, Desc: ctl})
@@ -149,6 +152,7 @@ func Space() ([]scen.Case, func(scen.Case) scen.Unit, func(scen.Case) []rt.Reque
 		add("POST", base+"/b", `{"a":5}`, "application/json", kOp)
 		add("POST", base+"/b", ``, "application/json", kOp)
 		add("GET", base+"/inherit", "", "", len(effective(nil, in.C.Secs, nil)))
+		add("GET", base+"/list", "", "", kOp)
 		return out
 	}
 	return cases, instrument, reqsFor
@@ -205,6 +209,7 @@ func Main(tier, replay string) {
 			add("OpB", "ill-typed", "POST", base+"/b", `{"a":5}`, "application/json", kOp)
 			add("OpB", "missing", "POST", base+"/b", ``, "application/json", kOp)
 			add("Inh", "valid", "GET", base+"/inherit", "", "", kInh)
+			add("List", "valid", "GET", base+"/list", "", "", kOp)
 			return out
 		}
 		patch := map[string]any{}
@@ -351,7 +356,7 @@ func Main(tier, replay string) {
 	run.Outcome("refused", int64(refused))
 	run.Outcome("422", int64(unprocessable))
 	run.Sample(map[string]any{"scenario": cases[len(cases)/2].Desc, "request": "GET /<id>/q?n=5", "verdicts": []int{1, 0}})
-	run.Bound = fmt.Sprintf("%d method-level x %d controller-level security shapes x 2 default configurations; 3 routes per scenario (query, body, hidden/inheriting) x request kinds {valid, ill-typed, missing} x every verdict vector in {approve, 401, 403+payload}^k (k = number of effective alternatives <= 3) x 5 engines", len(methodShapes), len(ctlShapes))
+	run.Bound = fmt.Sprintf("%d method-level x %d controller-level security shapes x 2 default configurations; 4 routes per scenario (query, body, hidden/inheriting, a method named alike in every controller) x request kinds {valid, ill-typed, missing} x every verdict vector in {approve, 401, 403+payload}^k (k = number of effective alternatives <= 3) x 5 engines", len(methodShapes), len(ctlShapes))
 	run.Rule = "state = (scenario, default config, route, request kind, verdict vector, engine); transition = one HTTP request served in-process by a compiled generated router with the scripted callback; validated = executions whose AUTH/CALL event log, status and body were compared with the effective-security model, plus handlers checked statically for the leading guarded authorize()"
 	run.Assumptions = []string{"which refusal wins when several alternatives refuse differently is not judged"}
 	os.RemoveAll(scratch)
